@@ -90,6 +90,8 @@ class Task:
         self.sem = threading.Semaphore(0)
         self.clock = 0.0
         self.cond = None
+        self.deadline = None
+        self.timed_out = False
         self.blocked_on = 'start'
         self.done = False
         self.started = False
@@ -164,7 +166,7 @@ class Sim:
             live = [t for t in self.tasks if not t.done]
             if not live:
                 return
-            runnable = [t for t in live if t.cond is None or t.cond()]
+            runnable = [t for t in live if t.cond is None or t.cond() or t.deadline is not None]
             if not runnable:
                 report = ['%s(#%d) blocked on %s' % (t.name, t.tid, t.blocked_on) for t in live]
                 self._abandon(live)
@@ -175,7 +177,11 @@ class Sim:
                 raise StepCap('step cap %d exceeded' % self.step_cap)
             # earliest effective time first (ties: chooser); buggify: any runnable
             def eff(t):
-                return t.clock if t.cond is None else max(t.clock, self.now)
+                if t.cond is None:
+                    return t.clock
+                if t.cond():
+                    return max(t.clock, self.now)
+                return t.deadline          # blocked with a timeout: becomes runnable when simulated time reaches it
             runnable.sort(key=lambda t: (eff(t), t.tid))
             ids = [t.tid for t in runnable]
             if self.policy == 'pct':
@@ -198,8 +204,10 @@ class Sim:
             else:
                 tid = ids[0]
             t = self.tasks[tid]
+            t.timed_out = t.cond is not None and not t.cond()
             t.clock = eff(t)       # a blocked task wakes no earlier than whoever unblocked it
             t.cond = None
+            t.deadline = None
             if t.clock > self.now:
                 self.now = t.clock
             self.schedule.append(tid)
@@ -214,7 +222,7 @@ class Sim:
         self.abandoned += len(live)
 
     # ---- called from task threads ----------------------------------------------------------------
-    def seam(self, what, cond=None, cost=None):
+    def seam(self, what, cond=None, cost=None, timeout=None):
         """Pre-emption point.  The calling task parks; when it is next picked (and `cond`, if given,
         is true) it returns and performs its operation atomically up to the next seam."""
         t = self.current
@@ -222,12 +230,14 @@ class Sim:
             raise HarnessError('seam(%s) called outside a simulated task' % what)
         t.clock += (self.op_cost if cost is None else cost) / t.speed
         t.cond = cond
+        t.deadline = (t.clock + float(timeout)) if (timeout is not None and cond is not None) else None
         t.blocked_on = what
         self._sched_sem.release()
         t.sem.acquire()
         if self.aborting:
             raise SimAbort()
         t.blocked_on = None
+        return not t.timed_out
 
     def advance(self, dt):
         """Pure passage of simulated time for the current task (no pre-emption)."""
